@@ -14,6 +14,13 @@
 //! In addition the limits must not depend on spelling: a label of 63 octets is accepted and one of 64 refused, a
 //! character string of 255 octets is accepted and one of 256 refused, whether written plainly or with escapes, in
 //! the first or a later label.
+//! Part 3 -- directives and readers: (a) what stands between a record and a following entry without an owner must not
+//! matter for the owner it inherits ("the last stated owner", RFC 1035 5.1): nothing, a blank line, a comment line, $TTL,
+//! $ORIGIN with the same or with another origin, $ORIGIN and $TTL together; the entries read like the same file with
+//! every owner written out. (b) how the octets of a file reach the reader must not matter: a file of 400 records
+//! (more than 8192 octets) through Zonefile::load from a reader that hands out everything at once, 1, 7, 100, 4096,
+//! 8191, 8192 or 8193 octets per call, or the file cut into two or three chained pieces at 29 cut points, reads like
+//! the same octets given as a slice.
 use domain::base::name::Name;
 use domain::zonefile::inplace::{Entry, Zonefile};
 use std::str::FromStr;
@@ -215,6 +222,123 @@ fn render(l: Layout) -> (String, Option<&'static str>) {
     (out, origin_arg)
 }
 
+/// reads entries until the end of the file
+fn drain(mut zf: Zonefile) -> Result<Vec<Rec>, String> {
+    let mut out = vec![];
+    loop {
+        match zf.next_entry() {
+            Ok(Some(Entry::Record(r))) => {
+                out.push((r.owner().to_string(), r.class().to_string(), r.ttl().as_secs(), r.rtype().to_string(), r.data().to_string()))
+            }
+            Ok(Some(_)) => return Err("include entry".to_string()),
+            Ok(None) => return Ok(out),
+            Err(e) => return Err(format!("ERR {e}")),
+        }
+    }
+}
+
+/// a reader that hands out at most `chunk` octets per call
+struct Dribble<'a> {
+    data: &'a [u8],
+    chunk: usize,
+}
+impl std::io::Read for Dribble<'_> {
+    fn read(&mut self, buf: &mut [u8]) -> std::io::Result<usize> {
+        let n = self.chunk.min(buf.len()).min(self.data.len());
+        buf[..n].copy_from_slice(&self.data[..n]);
+        self.data = &self.data[n..];
+        Ok(n)
+    }
+}
+
+fn part3() -> u64 {
+    use std::io::Read;
+    let _ = std::panic::take_hook();
+    let mut n = 0u64;
+    // (a) between a record and an entry that inherits its owner
+    let between: [(&str, &str); 8] = [
+        ("nothing", ""),
+        ("a blank line", "\n"),
+        ("a comment line", "; comment\n"),
+        ("$TTL", "$TTL 300\n"),
+        ("$ORIGIN with the same origin", "$ORIGIN example.com.\n"),
+        ("$ORIGIN with another origin", "$ORIGIN sub.example.com.\n"),
+        ("$ORIGIN and $TTL", "$ORIGIN sub.example.com.\n$TTL 300\n"),
+        ("$TTL and $ORIGIN and a comment", "$TTL 300\n; c\n$ORIGIN sub.example.com.\n"),
+    ];
+    for first_owner in ["a", "a.example.com.", "@"] {
+        for (what, mid) in between {
+            for indent in [" ", "\t", "    "] {
+                n += 1;
+                let text = format!(
+                    "$ORIGIN example.com.\n{first_owner} 300 IN A 192.0.2.1\n{mid}{indent}300 IN A 192.0.2.2\n{indent}300 IN AAAA 2001:db8::1\nb.example.com. 300 IN A 192.0.2.3\n"
+                );
+                let owner = if first_owner == "@" { "example.com." } else { "a.example.com." };
+                let explicit = format!(
+                    "{owner} 300 IN A 192.0.2.1\n{owner} 300 IN A 192.0.2.2\n{owner} 300 IN AAAA 2001:db8::1\nb.example.com. 300 IN A 192.0.2.3\n"
+                );
+                let want = read(&explicit, None);
+                let got = read(&text, None);
+                if got != want || !matches!(&got, Ok(v) if v.len() == 4) {
+                    println!("FAILING INPUT (zone file):\n{text}");
+                    println!("with {what} between a record and the entries that inherit its owner this reads as {got:?};\nthe same content with every owner written out reads as {want:?}");
+                    std::process::exit(1);
+                }
+            }
+        }
+    }
+    // (b) readers
+    let mut big = String::from("$ORIGIN example.com.\n$TTL 3600\n");
+    for i in 0..400 {
+        big.push_str(&format!("host{i:03} IN A 192.0.2.{}\n", i % 250));
+    }
+    let bytes = big.as_bytes();
+    assert!(bytes.len() > 8192 + 100);
+    let want = drain(Zonefile::from(bytes));
+    if !matches!(&want, Ok(v) if v.len() == 400) {
+        println!("FAILING INPUT: a 400-record file given as a slice reads as {:?}", want.as_ref().map(|v| v.len()));
+        std::process::exit(1);
+    }
+    for chunk in [usize::MAX, 1, 7, 100, 4096, 8191, 8192, 8193] {
+        n += 1;
+        let got = Zonefile::load(&mut Dribble { data: bytes, chunk }).map_err(|e| e.to_string()).and_then(drain);
+        if got != want {
+            println!(
+                "FAILING INPUT: a {}-octet file of 400 records loaded from a reader that hands out at most {chunk} octets per call reads as {:?} records; as a slice it reads as 400",
+                bytes.len(), got.as_ref().map(|v| v.len())
+            );
+            std::process::exit(1);
+        }
+    }
+    let cuts = [1usize, 2, 19, 20, 21, 33, 100, 1000, 4095, 4096, 4097, 8000, 8191, 8192, 8193, 9000, bytes.len() - 1];
+    for &c1 in &cuts {
+        n += 1;
+        let (a, b) = bytes.split_at(c1);
+        let got = Zonefile::load(&mut a.chain(b)).map_err(|e| e.to_string()).and_then(drain);
+        if got != want {
+            println!(
+                "FAILING INPUT: a {}-octet file of 400 records loaded from two chained pieces cut at {c1} reads as {:?} records; as a slice it reads as 400",
+                bytes.len(), got.as_ref().map(|v| v.len())
+            );
+            std::process::exit(1);
+        }
+    }
+    for (c1, c2) in [(10usize, 20usize), (100, 8192), (4096, 8192), (8192, 8300), (20, 9000), (8191, 8193), (1, 2), (5000, 5001), (33, 8500), (8000, 9500), (2000, 4000), (8192, 8193)] {
+        n += 1;
+        let (a, rest) = bytes.split_at(c1);
+        let (b, c) = rest.split_at(c2 - c1);
+        let got = Zonefile::load(&mut a.chain(b).chain(c)).map_err(|e| e.to_string()).and_then(drain);
+        if got != want {
+            println!(
+                "FAILING INPUT: a {}-octet file of 400 records loaded from three chained pieces cut at {c1} and {c2} reads as {:?} records; as a slice it reads as 400",
+                bytes.len(), got.as_ref().map(|v| v.len())
+            );
+            std::process::exit(1);
+        }
+    }
+    n
+}
+
 fn main() {
     std::panic::set_hook(Box::new(|_| {}));
     let canonical = Layout { owner: 0, ttl: 0, ttl_first: true, class: true, rel_data: false, sep: 0, wrap: 0, esc: 0, gaps: 0 };
@@ -315,5 +439,6 @@ fn main() {
             }
         }
     }
-    println!("OK: {n} layouts of a {}-record zone read like the canonical layout; {m} spellings of long labels and strings judged alike", ZONE.len());
+    let p3 = part3();
+    println!("OK: {n} layouts of a {}-record zone read like the canonical layout; {m} spellings of long labels and strings judged alike; {p3} directive placements and readers make no difference", ZONE.len());
 }
